@@ -63,6 +63,7 @@ type op struct {
 	qos   byte
 	dup   bool
 	id    uint16
+	alt   bool // acknowledgement with other content (SUBACK with another return code)
 }
 
 func (o op) String() string {
@@ -78,6 +79,9 @@ func (o op) String() string {
 	case opAck:
 		if o.mtype == refcodec.PINGRESP {
 			return "Ack(PINGRESP)"
+		}
+		if o.alt {
+			return fmt.Sprintf("Ack(%s id=%d, other return code)", refcodec.Name(o.mtype), o.id)
 		}
 		return fmt.Sprintf("Ack(%s id=%d)", refcodec.Name(o.mtype), o.id)
 	}
@@ -100,6 +104,9 @@ func request(o op, salt int) *refcodec.Packet {
 func ackPacket(o op) *refcodec.Packet {
 	switch o.mtype {
 	case refcodec.SUBACK:
+		if o.alt {
+			return &refcodec.Packet{Type: refcodec.SUBACK, ID: o.id, Codes: []byte{0x80}} // same length, other content
+		}
 		return &refcodec.Packet{Type: refcodec.SUBACK, ID: o.id, Codes: []byte{1}}
 	case refcodec.PINGRESP:
 		return &refcodec.Packet{Type: refcodec.PINGRESP}
@@ -293,6 +300,9 @@ func alphabetA() []op {
 			ops = append(ops, op{kind: opAck, mtype: t, id: id})
 		}
 	}
+	// a second SUBACK for the same request with another return code: the final
+	// acknowledgement is the one that counts
+	ops = append(ops, op{kind: opAck, mtype: refcodec.SUBACK, id: 2, alt: true})
 	ops = append(ops, op{kind: opAck, mtype: refcodec.PINGRESP})
 	ops = append(ops, op{kind: opAcked})
 	return ops
